@@ -560,7 +560,9 @@ func checkC01(c *core.Ctx) {
 	// structured tokens (every count 1..40 of repeated constructs, long tokens with multi-byte tails, wrong
 	// characters in escapes) alone and where the parsers do not expect them: the error message quotes the token
 	for _, t := range StructuredLexInputs() {
-		for _, in := range []string{t, "{ a " + t + " }", "type T " + t + " { f: Int }", "{ f(x: " + t + ") }"} {
+		for _, in := range []string{t, "{ a " + t + " }", "type T " + t + " { f: Int }", "{ f(x: " + t + ") }",
+			// (the token where it belongs, and the fault after it: positions that follow a long / multi-line token)
+			"{ f(x: " + t + ") ", "{ f(x: " + t + ")\n}}", t + " type T {", t + "\ntype T { f: Int } ?"} {
 			if len(in) < 2500 {
 				reqs = append(reqs, totReq{Hex: hex.EncodeToString([]byte(in))})
 			}
